@@ -191,6 +191,7 @@ func TestVerifC18(t *testing.T) {
 				readsBefore := len(vOnly(h.tr.Events(), "read_deliver"))
 				h.deliver(vfake.In{Msg: msg, Hop: hop, From: from})
 				h.settle()
+				now := time.Now() // the receipt time: a read takes no virtual time
 				if coincident {
 					coincident = false
 					time.Sleep(10 * time.Millisecond)
@@ -203,7 +204,6 @@ func TestVerifC18(t *testing.T) {
 					}
 					r.Count("coinciding_messages_read", 1)
 				}
-				now := time.Now()
 				onMsg := int(onMsgA.Load())
 				typ := msg.Type().String()
 				if hop != 255 {
